@@ -3,6 +3,7 @@ import copy
 import datetime
 import functools
 import math
+import random
 import re
 
 from hypothesis import strategies as st
@@ -21,6 +22,7 @@ RULE = ('Every library function except datetimeNow/datetimeToday/mathRandom/syst
         'Oracle: same outcome kind (value / failed call / error class), results equal by numeric value (bool distinct from number), '
         'post-call arguments equal, same aliasing of the result to the arguments. Non-trivial: the call succeeded in some spelling and an '
         'argument contained an integral number; distinct by content hash. Classes report per-function ok/failed counts.')
+RULE += ' Order family: ~575 calls over 23 special values (both zeros, int/float twins, 2**53, 1e21 ...) evaluated in fresh interpreter processes in four different orders must agree call by call.'
 RULE += " Also: dataAggregate category columns mixing 1, '1', '1.0'; eleven or more values just below 1e15 averaged; datetimeNew with time components of magnitude 1e3..1e12 that cancel each other; large odd millisecond offsets. Results are compared exactly below 2**53 (1e-12 relative beyond it)."
 ASSUMPTIONS = [
     'integer exponents of ** are capped at 64 (int ** int with huge exponents does not terminate; outside every listed property)',
@@ -496,15 +498,72 @@ def call_strategy(draw, names):
     return name, clamp_sizes(name, args[:7])
 
 
+# ---- order independence in fresh processes -----------------------------------------------------------------------------------------------
+ORDER_VALUES = {'i0': 0, 'f0': 0.0, 'n0': -0.0, 'i1': 1, 'f1': 1.0, 'tt': True, 'ff': False, 'i7': 7, 'f7': 7.0, 'big': 1e21, 'ibig': 10 ** 21, 'half': 0.5, 'nhalf': -0.5,
+                'third': 1 / 3, 'e300': 1e300, 'tiny': 5e-324, 'i53': 2 ** 53, 'f53': float(2 ** 53), 'neg': -3, 'fneg': -3.0, 's0': '0', 's00': '0.0', 'sn0': '-0'}
+ORDER_CALLS = ["stringNew(X)", "'' + X", "X + ''", "jsonStringify(X)", "arrayJoin(arrayNew(X, X), ',')", "numberToFixed(X, 2)", "numberToFixed(X, 0)",
+               "jsonStringify(arrayNew(X))", "jsonStringify(objectNew('k', X), 2)", "stringNew(arrayNew(X))", "mathRound(X)", "mathAbs(X)", "mathSign(X)", "X == 0",
+               "systemCompare(X, 0)", "systemType(X)", "numberParseFloat(stringNew(X))", "numberParseInt(stringNew(X))", "mathFloor(X)", "X * 1", "0 - X",
+               "stringLength(stringNew(X))", "arrayIndexOf(arrayNew(0, 1, 7), X)", "objectGet(objectNew('0', 'zero', '1', 'one'), stringNew(X))", "mathMax(X, 0)"]
+_ORDER_CODE = ('import sys, json\nfrom bare_script import parse_expression, evaluate_expression\n'
+               'job = json.load(sys.stdin)\nout = []\n'
+               'for ix, text in job["calls"]:\n'
+               '    try:\n        r = evaluate_expression(parse_expression(text), {"globals": dict(job["globals"])})\n'
+               '    except Exception as e:\n        r = "raised " + type(e).__name__\n'
+               '    out.append([ix, type(r).__name__ + ":" + repr(r)])\n'
+               'print(json.dumps(out))')
+
+
+def check_order_independence(seed):
+    """The same calls, evaluated in fresh interpreter processes in different orders, give the same results call by call (a library or operator answer
+    may not depend on which values were seen before)."""
+    import json
+    import os
+    import subprocess
+    import sys
+    names = sorted(ORDER_VALUES)
+    calls = [(c.replace('X', n), n) for n in names for c in ORDER_CALLS]
+    idx = list(range(len(calls)))
+    rnd = random.Random(seed)
+    shuffled = list(idx)
+    rnd.shuffle(shuffled)
+    orders = {'ascending by value name': idx, 'descending by value name': idx[::-1], 'seeded shuffle': shuffled, 'seeded shuffle reversed': shuffled[::-1]}
+    src = os.path.dirname(os.path.dirname(impl.bs.module.__file__))
+    results = {}
+    for oname, order in orders.items():
+        job = {'globals': ORDER_VALUES, 'calls': [[i, calls[i][0]] for i in order]}
+        r = subprocess.run([sys.executable, '-c', _ORDER_CODE], input=json.dumps(job), capture_output=True, text=True, env=dict(os.environ, PYTHONPATH=src), timeout=300)
+        if r.returncode != 0:
+            raise RuntimeError('order-independence subprocess failed: ' + r.stderr[-300:])
+        results[oname] = dict((i, v) for i, v in json.loads(r.stdout))
+    first = next(iter(orders))
+    for oname in orders:
+        for i in idx:
+            if results[oname][i] != results[first][i]:
+                raise Violation('%s = %s when the calls run in the order "%s", %s in the order "%s" (fresh process each)' % (
+                    calls[i][0], results[oname][i], oname, results[first][i], first), {'kind': 'order', 'seed': seed, 'call': calls[i][0]}, 'order-dependence')
+    return len(calls), len(orders)
+
+
 def plan(tier):
     names = function_names()
     k = 14 if tier == 'quick' else 16
     specs = [{'kind': 'calls', 'n': 2500 if tier == 'quick' else 60000, 'k': i, 'names': names[i::k]} for i in range(k)]
     specs += [{'kind': 'ops', 'n': 8000 if tier == 'quick' else 100000, 'k': i} for i in range(2 if tier == 'quick' else 4)]
+    specs += [{'kind': 'order', 'k': i} for i in range(1 if tier == 'quick' else 8)]
     return specs
 
 
 def run_shard(ctx, spec):
+    if spec['kind'] == 'order':
+        seed = ctx.seed * 100 + spec['k']
+        try:
+            ncalls, norders = check_order_independence(seed)
+        except Violation as v:
+            ctx.violation(v)
+            ncalls, norders = 0, 0
+        ctx.case(digest(['order', seed]), True, ['order-independence', 'calls=%d' % ncalls, 'orders=%d' % norders], {'seed': seed, 'calls': ncalls, 'orders': norders})
+        return
     if spec['kind'] == 'calls':
         def prop(call):
             name, args = call
@@ -522,7 +581,9 @@ def run_shard(ctx, spec):
 
 
 def replay(detail):
-    if detail.get('kind') == 'op':
+    if detail.get('kind') == 'order':
+        check_order_independence(detail['seed'])
+    elif detail.get('kind') == 'op':
         check_operator(detail['op'], dec(detail['x']), dec(detail['y']))
     else:
         check_call(detail['fn'], dec(detail['args'], HOST))
